@@ -167,6 +167,26 @@ def fn_body(src, name):
 SQL_KW = ('SELECT', 'INSERT', 'DELETE', 'UPDATE', 'BEGIN', 'COMMIT', 'ROLLBACK', 'SAVEPOINT', 'RELEASE', 'PRAGMA', 'CREATE', 'DROP', 'WITH')
 
 
+def fn_body_deep(src, name, depth=0, seen=None):
+    """the body of `name` followed by the bodies of the helpers of the same file it calls (`Self::f`, `self.f`, free `f`), transitively (two levels):
+    what a reader sees after inlining private helpers.  Used where parameter lists / validation calls are looked up by text."""
+    seen = seen if seen is not None else {name}
+    body = fn_body(src, name)
+    out = [body]
+    if depth >= 2:
+        return body
+    for m in re.finditer(r'(?<![\w.:])(?:Self::|self\.)?([A-Za-z_]\w*)\s*\(', re.sub(r'//[^\n]*', '', body)):
+        callee = m.group(1)
+        if callee in seen or not re.search(r'\bfn ' + re.escape(callee) + r'\b', src):
+            continue
+        seen.add(callee)
+        try:
+            out.append(fn_body_deep(src, callee, depth + 1, seen))
+        except SqlError:
+            pass
+    return '\n'.join(out)
+
+
 def program(rel, name, depth=0):
     """ordered SQL statements of a function: [(sql text, offset)] with helper functions of the same file inlined"""
     src = source(rel)
@@ -201,9 +221,12 @@ def program(rel, name, depth=0):
                 out.append(lit)
             k = j + 1
             continue
-        m = re.match(r'(?:Self::|self\.)(\w+)\s*\(', body[k:])
+        m = re.match(r'(Self::|self\.)?([A-Za-z_]\w*)\s*\(', body[k:])
+        # a call of a helper defined in the same file: `Self::f(..)`, `self.f(..)` or a free private function `f(..)` (not a method of another value, not a path)
+        if m and not m.group(1) and k > 0 and body[k - 1] in '.:':
+            m = None
         if m and depth < 3 and (k == 0 or not (body[k - 1].isalnum() or body[k - 1] == '_')):
-            callee = m.group(1)
+            callee = m.group(2)
             if callee != name and re.search(r'\bfn ' + re.escape(callee) + r'\b', src):
                 try:
                     sub = program(rel, callee, depth + 1)
